@@ -9,6 +9,7 @@ import glob, os
 
 ROOT = os.path.dirname(os.path.dirname(os.path.dirname(os.path.abspath(__file__))))
 COQ = os.path.join(ROOT, "coq")
+REPO = os.environ.get("VERIF_REPO", "/repo")
 GENERATORS = []   # list of callables, each regenerates its file(s) if the content changed
 
 
